@@ -19,6 +19,7 @@ class Spec:
     batch = 50
     expected_probes = ()
     crash_is_own_oracle = False
+    quick_budget = None
     assumptions = ()
     components = {"real": REAL_MANAGER, "stub": STUB_NET}
 
@@ -157,6 +158,65 @@ class IdentitySpec(Spec):
         return identity.run(choices, forced)
 
 
+class ReadPathSpec(Spec):
+    prop = "C08"
+    harness = "readpath"
+    level = "fault_enumeration"
+    batch = 60
+    rule = ("one run = a real pyrtma.Client, connected through the fake socket to a scripted server, executes a seeded "
+            "sequence of: server feeds frames (good & subscribed, good & unsubscribed, ACK, unknown type, wrong size, "
+            "wrong non-zero version, version 0, zero-length) in any order, bytes arrive cut at arbitrary boundaries, "
+            "subscription changes, read_message with timeout in {0, short, blocking, None} and ack / sync_check flags, "
+            "server close by FIN or RST at an arbitrary byte; thorough runs the table frame kind x byte offset 0..149 x "
+            "FIN/RST x position once each.  The fake socket counts the bytes each call consumed, which fixes which "
+            "frames the call decided on.  non-trivial = more than one frame kind or a close; distinct = distinct "
+            "operation/outcome trace")
+    expected_probes = ("read_msg", "read_none", "read_unknown", "read_invalid", "read_lost", "skipped_frames",
+                       "lost_checked_fin", "lost_checked_rst", "decode_error_checked", "returned_checked",
+                       "blocking_read_fed", "decode_error_on_cut_frame")
+    components = {"real": REAL_CLIENT + ["pyrtma.message / header / validators / core_defs"],
+                  "stub": ["socket/select/time fakes", "scripted server actor with the independent struct codec",
+                           "no manager in this harness"]}
+    assumptions = ["frames come from a manager-like peer: declared lengths are non-negative and at most 64 KiB",
+                   "the server never withholds the rest of a frame for ever (it completes it or closes)"]
+
+    def run(self, choices, forced=None):
+        from harness import readpath
+        return readpath.run(choices, forced)
+
+    def deterministic_cases(self, tier):
+        from harness import readpath
+        return readpath.det_cases(tier)
+
+
+class StatsSpec(Spec):
+    prop = "C18"
+    harness = "stats"
+    level = "exploration"
+    batch = 4
+    quick_budget = 28.0
+    rule = ("one run = 1-4 publishers (distinct ids and pids, static / dynamic / shared ids) emit, per reporting interval, "
+            "a chosen multiset of message types (0, 1, 2, 63, 64, 65, 128, 129 or 300 distinct types, 1-300 each, "
+            "occasionally one type 40000-65535 times; types at 0, 9999, 10000 and -1) while the virtual clock is "
+            "stepped across TIMING (0.9 s) and TRAFFIC (1 s) periods, including boundaries inside a burst and jumps "
+            "over several periods; a logger monitor subscribed to ALL sees every report and every forwarded message. "
+            "No faults are injected (the quantifier is over multisets and interval sequences).  Every run is "
+            "non-trivial; distinct = distinct event-log digest")
+    expected_probes = ("timing_reports_checked", "traffic_reports_checked", "traffic_submsgs_2", "traffic_submsgs_3",
+                       "traffic_submsgs_5", "timing_empty_interval", "timing_out_of_range_types", "huge_count")
+    assumptions = ["'handled for forwarding' = client data frames read + manager-originated messages sent through "
+                   "forwarding; ACKNOWLEDGE copies to loggers are not asserted either way",
+                   "out-of-range destinations, pre-handshake frames and connection failures are not generated here"]
+
+    def run(self, choices, forced=None):
+        from harness import stats
+        return stats.run(choices, forced)
+
+    def deterministic_cases(self, tier):
+        from harness import stats
+        return stats.det_cases(tier)
+
+
 _SPECS = {}
 
 
@@ -175,6 +235,8 @@ def _register():
     _SPECS["C07"] = DepartureSpec()
     _SPECS["C02"] = ClientSubSpec()
     _SPECS["C06"] = IdentitySpec()
+    _SPECS["C08"] = ReadPathSpec()
+    _SPECS["C18"] = StatsSpec()
 
 
 def get_spec(prop: str) -> Spec:
